@@ -105,7 +105,7 @@ class Gen:
         r = self.rng
         if raising and kind == 'int':
             m = r.choice([2, 3, 4])
-            return {'fn': 'raiseIfMod', 'm': m, 'r': r.randrange(m), 'cls': r.choice(RAISE_CLASSES)}
+            return {'fn': 'raiseIfMod', 'm': m, 'r': r.randrange(m), 'cls': r.choice(RAISE_CLASSES), 'noargs': r.random() < 0.4}
         if kind == 'int':
             return r.choice([{'fn': 'add', 'c': r.randint(-5, 20)}, {'fn': 'identity'},
                              {'fn': 'tag', 's': 'v'}, {'fn': 'neg'}, {'fn': 'add', 'c': 1}])
@@ -228,7 +228,11 @@ class Gen:
             elif s == 'cacheEager':
                 q = {'op': 'cacheEager', 'p': p}
             elif s == 'catch':
-                q = {'op': 'catch', 'E': r.choice(CATCH_SETS), 'p': p}
+                E = r.choice(CATCH_SETS)
+                raised = [c for c in raised_classes(p) if c in ('UserA', 'UserB', 'UserC', 'ValueError', 'FilterException')]
+                if raised and r.random() < 0.7:
+                    E = [r.choice(raised)]          # catch what the upstream actually raises, most of the time
+                q = {'op': 'catch', 'E': E, 'warn': r.random() < 0.4, 'p': p}
             elif s == 'copy':
                 q = {'op': 'copy', 'freeze': r.random() < 0.5, 'p': p}
             elif s == 'prefetch':
@@ -259,6 +263,18 @@ def probe_points(rf_n, keys):
     idx = list(range(-n - 2, n + 2))
     ks = list(dict.fromkeys((keys or []) + ['absent', 'a', 'zz']))
     return idx, ks
+
+
+def raised_classes(p, acc=None):
+    acc = acc if acc is not None else []
+    f = p.get('f')
+    if isinstance(f, dict) and f.get('fn', f.get('pred')) == 'raiseIfMod':
+        acc.append(f['cls'])
+    if 'p' in p:
+        raised_classes(p['p'], acc)
+    for q in p.get('ps', []):
+        raised_classes(q, acc)
+    return acc
 
 
 def depth_of(p):
